@@ -12,7 +12,7 @@
                              returns it whole; the expression parser then rejects it
                              (C10_sep_replaced_rejected below, Part B). *)
 From Coq Require Import List Arith NArith.
-From Verif Require Import ChecksumModel ChecksumSpec ChecksumTheorems ExprTreeModel ExprTreeTotal ExprTreeRt.
+From Verif Require Import ChecksumModel ChecksumSpec ChecksumTheorems ExprTreeModel ExprTreeTotal ExprTreeRt ExprTreeGrammar.
 Import ListNotations.
 Local Open Scope N_scope.
 
@@ -78,6 +78,9 @@ Print Assumptions C10_ck_is_bip380.
    substitutions spread over different groups (minimum distance 5 of the BCH code over the
    first 676 symbol positions); exercised by the substitution campaign of the check only. *)
 
+Definition ex_payload : bytes := [114; 97; 119; 40; 100; 101; 97; 100; 98; 101; 101; 102; 41].   (* raw(deadbeef) *)
+Definition ex_cs : bytes := [56; 57; 102; 56; 115; 112; 120; 109].                                   (* 89f8spxm *)
+
 (* ======================================================================================
    Part B: the expression-tree parser of src/expression/mod.rs (model Ms/ExprTreeModel.v). *)
 
@@ -98,9 +101,45 @@ Theorem C10_tree_print_parse : forall t,
 Proof. exact tree_print_parse_lemma. Qed.
 Print Assumptions C10_tree_print_parse.
 
+(* tree_rt, second half: whatever from_str_inner returns is the node vector of a (structurally
+   well-formed) tree whose text is exactly the input without its checksum. *)
+Theorem C10_tree_parse_print : forall s0 nodes, from_str_inner s0 = Ok nodes ->
+  exists s t, verify_checksum s0 = Ok s /\ swf t = true /\ depth t <= MAX_RECURSION_DEPTH /\
+              print t = s /\ nodes = tree_nodes t.
+Proof. exact tree_parse_print_lemma. Qed.
+Print Assumptions C10_tree_parse_print.
+
+(* The second disjunct of C10_ck_one_char cannot slip through the expression parser: if a
+   checksummed expression whose root has children is accepted, the same string with its
+   separator '#' replaced (so that no checksum is recognised any more) is rejected
+   (TrailingCharacter: text continues after the parenthesis that closes the root).
+   Every descriptor is such an expression (pkh(..), wsh(..), tr(..), ...). *)
+Theorem C10_sep_replaced_rejected : forall p cs x nodes,
+  from_str_inner (p ++ HASH :: cs) = Ok nodes -> verify_checksum (p ++ HASH :: cs) = Ok p ->
+  (exists nd, nth_error nodes 0 = Some nd /\ nd_parens nd <> PNone) ->
+  verify_checksum (p ++ x :: cs) = Ok (p ++ x :: cs) ->
+  rejected_t (from_str_inner (p ++ x :: cs)).
+Proof. exact sep_replaced_rejected_lemma. Qed.
+Print Assumptions C10_sep_replaced_rejected.
+
+(* ---- non-vacuity of the tree theorems: "a(b,c{d})" *)
+Definition ex_tree : etree :=
+  ENode [97] PRound [ENode [98] PNone []; ENode [99] PCurly [ENode [100] PNone []]].
+Example C10_tree_nonvacuous :
+  well_formed ex_tree = true /\ depth ex_tree = 2 /\
+  print ex_tree = [97; 40; 98; 44; 99; 123; 100; 125; 41] /\
+  from_str_inner (print ex_tree) = Ok (tree_nodes ex_tree) /\
+  length (tree_nodes ex_tree) = 4%nat /\
+  (* the checksummed BIP-380 vector parses, its root "raw" has children, and with the separator
+     replaced by 'x' it is rejected *)
+  (exists nodes nd, from_str_inner (ex_payload ++ HASH :: ex_cs) = Ok nodes /\ nth_error nodes 0 = Some nd /\ nd_parens nd = PRound) /\
+  from_str_inner (ex_payload ++ 120 :: ex_cs) = Err (TETrailingCharacter 13).
+Proof.
+  repeat split; try (vm_compute; reflexivity).
+  eexists. eexists. split; [vm_compute; reflexivity|]. split; reflexivity.
+Qed.
+
 (* ---- non-vacuity: BIP-380's own test vector "raw(deadbeef)#89f8spxm" *)
-Definition ex_payload : bytes := [114; 97; 119; 40; 100; 101; 97; 100; 98; 101; 101; 102; 41].
-Definition ex_cs : bytes := [56; 57; 102; 56; 115; 112; 120; 109].
 
 Example C10_ck_nonvacuous :
   desc_checksum ex_payload = Ok ex_cs /\
